@@ -30,6 +30,8 @@ def describe(ck):
     ck.rule("R05l", "heap buffers allocated in a function hold every index / copy length used on them in that function (affine comparison; decided only when the symbolic parts cancel)")
     ck.rule("R05m", "bpm_block clamps the pattern length to what its fixed-size block tables hold (cap <= blocks x 64), before any use, and Peq has SIGMA residue rows")
     ck.rule("R05n", "counted loops over the DP workspace buffers stay within the capacity resize_aln_mem guarantees for them (cross-function affine comparison)")
+    ck.rule("R05o", "aln_param_init rejects an infinite gap penalty (a test that is true for +inf leads to the error exit) for each of gpo, gpe, tgpe")
+    ck.rule("R05p", "an array that replaces msa->sequences receives no NULL slot: every record of the old array is carried over")
     ck.rule("R05j", "loop-carried appends X->buf[X->count]; X->count++ test count against capacity before the next element access")
     ck.rule("R05k", "a local pointer that aliases storage owned by a struct field is not passed to a releaser while the owner still holds it")
     ck.not_decided += ["termination of all loops", "index safety inside the DP / bit-parallel kernels",
@@ -348,6 +350,8 @@ def run(ck, progs):
         ck.attempt(r05f, ck, prog)
         ck.attempt(r05m, ck, prog)
         ck.attempt(r05n, ck, prog)
+        ck.attempt(r05o, ck, prog)
+        ck.attempt(r05p, ck, prog)
         n = ck.attempt(r05l, ck, prog)
         ck.floor("R05l", n, 120, "decided heap accesses")
         n = ck.attempt(r05j, ck, prog)
@@ -1435,3 +1439,97 @@ def r05n(ck, prog):
                                  "sites disagree by %d and the access runs past the allocation when the capacity is exactly met" % (
                                      F.name, f, hi.add(Lin(-1)), need, -diff.c), prog.config)
     ck.floor("R05n", n, 1, "decided uses of guaranteed buffers")
+
+
+# --------------------------------------------------------------------------- R05o / R05p
+def _inf_eval(n, names):
+    """three-valued evaluation of a condition with every penalty in `names` bound to +infinity"""
+    n = n.strip(casts=True)
+    inf = float("inf")
+    def val(x):
+        x = x.strip(casts=True)
+        if x.k == "DeclRefExpr" and x.d["name"] in names:
+            return inf
+        if x.k == "MemberExpr" and x.d["field"] in names:
+            return inf
+        v = const_value(x)
+        return v
+    if n.k == "CallExpr" and (n.callee or "").replace("__builtin_", "") in ("isfinite", "isinf", "isnan", "isinf_sign", "finite"):
+        a = val(n.args[-1])
+        if a is None:
+            return None
+        f = n.callee.replace("__builtin_", "")
+        return {"isfinite": 0, "finite": 0, "isinf": 1, "isinf_sign": 1, "isnan": 0}[f]
+    if n.k == "UnaryOperator" and n.d["op"] == "!":
+        v = _inf_eval(n.kids[0], names)
+        return None if v is None else int(not v)
+    if n.k == "BinaryOperator":
+        op = n.d["op"]
+        if op in ("&&", "||"):
+            a, b = _inf_eval(n.kids[0], names), _inf_eval(n.kids[1], names)
+            if op == "||":
+                if a == 1 or b == 1:
+                    return 1
+                return 0 if a == 0 and b == 0 else None
+            if a == 0 or b == 0:
+                return 0
+            return 1 if a == 1 and b == 1 else None
+        a, b = val(n.kids[0]), val(n.kids[1])
+        if a is None or b is None:
+            return None
+        return int({"<": a < b, ">": a > b, "<=": a <= b, ">=": a >= b, "==": a == b, "!=": a != b}.get(op, False))
+    return None
+
+
+def r05o(ck, prog):
+    """an infinite gap penalty must be rejected before it reaches the DP: for each of gpo/gpe/tgpe some test in
+    aln_param_init that is true for +inf sends control to the error exit"""
+    F = prog.fn("aln_param_init")
+    for p in ("gpo", "gpe", "tgpe"):
+        rejecting = []
+        for ifs in F.body.find("IfStmt"):
+            th = ifs.child("then")
+            if th is None or not any(g.d["label"] == "ERROR" for g in th.find("GotoStmt")):
+                continue
+            if _inf_eval(ifs.child("cond"), {p}) == 1:
+                rejecting.append(ifs)
+        where = site(prog, rejecting[0] if rejecting else F, p)
+        ck.inst("R05o", where, "aln_param_init: %d test(s) reject %s = +inf" % (len(rejecting), p), prog.config)
+        if not rejecting:
+            ck.violation("R05o", "R05o/aln_param_init/%s" % p, where,
+                         "an infinite %s passes the '>= 0' override test and reaches the dynamic programming: every candidate "
+                         "compares as -inf, no transition is chosen and the path buffer is over-read (kalign --%s inf crashes)" % (p, p),
+                         prog.config)
+
+
+def r05p(ck, prog):
+    """a pointer array that replaces msa->sequences carries every element of the old array over: no slot of the
+    replacement is filled with NULL (the records it stood for would be orphaned)"""
+    n = 0
+    for F in prog.lib_functions():
+        for a in F.body.find("BinaryOperator"):
+            if a.d["op"] != "=":
+                continue
+            l = a.kids[0].strip()
+            r = a.kids[1].strip(casts=True)
+            if not (l.k == "MemberExpr" and l.d.get("field") == "sequences" and l.d.get("rec") == "msa" and
+                    r.k == "DeclRefExpr" and r.d.get("dk") == "Var"):
+                continue
+            # only replacements of an existing array (the old one is released in the same function)
+            if not any("sequences" in x.text() for c in F.body.calls("free") for x in c.args):
+                continue
+            n += 1
+            did = r.d["did"]
+            where = site(prog, a, "sequences=%s" % r.text())
+            nulls = []
+            for s in F.body.find("BinaryOperator"):
+                if s.d["op"] == "=" and s.kids[0].strip().k == "ArraySubscriptExpr":
+                    b = s.kids[0].strip().kids[0].strip(casts=True)
+                    if b.k == "DeclRefExpr" and b.d["did"] == did and _is_null(s.kids[1]):
+                        nulls.append(s)
+            ck.inst("R05p", where, "%s replaces msa->sequences by %s; %d NULL store(s) into the replacement" % (F.name, r.text(), len(nulls)), prog.config)
+            for s in nulls:
+                ck.violation("R05p", "R05p/%s/%s" % (F.name, r.text()), site(prog, s),
+                             "%s fills a slot of the array that replaces msa->sequences with NULL: the record the old array held "
+                             "there is neither carried over nor released (leak on the success path)" % F.name, prog.config)
+    ck.floor("R05p", n, 1, "replacements of msa->sequences")
